@@ -45,7 +45,7 @@ def gen_roundtrip(rng):
 def gadget_oracle(ctx, pairs, stats):
     """pairs = [(case with the failing optional line, same case without it)]"""
     flat = [c for p in pairs for c in p]
-    res = L.run_cases(ctx, flat, workers=6)
+    res = L.run_cases(ctx, flat)
     for k in range(len(pairs)):
         (c1, G1, raw1, impl1, model1), (c0, G0, raw0, impl0, model0) = res[2 * k], res[2 * k + 1]
         for i, (a, b) in enumerate(zip(impl1, impl0)):
@@ -67,14 +67,16 @@ def gadget_oracle(ctx, pairs, stats):
 def run(ctx):
     stats = {}
     L.evaluate(ctx, PID, L.load_corpus(PID), stats, extra=L.roundtrip_oracle)
-    target = ctx.n(400, 10000)
+    target = ctx.n(1500, 20000)
     done = 0
-    while done < target and not ctx.out_of_time():
-        batch = [gen_roundtrip(ctx.rng) for _ in range(48)]
+    import time
+    soft = L.soft_deadline(ctx)
+    while done < target and not ctx.out_of_time() and time.time() < soft:
+        batch = [gen_roundtrip(ctx.rng) for _ in range(96)]
         L.evaluate(ctx, PID, batch, stats, extra=L.roundtrip_oracle)
         done += len(batch)
         pairs = []
-        for _ in range(8):
+        for _ in range(12):
             c = L.gen_case(ctx.rng, cyc=False, nreq=ctx.rng.randint(1, 3), plain=True)
             g1, g0, host = L.add_gadget(ctx.rng, c["graph"])
             c["history"][0]["name"] = host if ctx.rng.random() < 0.6 else c["history"][0]["name"]
